@@ -328,6 +328,10 @@ func build(b *Base, faults []Site) *built {
 			if f.Kind == "loader" && f.A == j {
 				l.fail = true
 			}
+			if f.Kind == "loader-garbage" && f.A == j {
+				l.data = []byte("c09: [unclosed\n\tbad: : :\n") // not YAML: merging it must fail the start
+				bu.fired++
+			}
 		}
 		bu.loaders = append(bu.loaders, l)
 	}
@@ -373,7 +377,7 @@ func sites(b *Base) []Site {
 		}
 	}
 	for j := 0; j < b.Loaders; j++ {
-		out = append(out, Site{Kind: "loader", A: j})
+		out = append(out, Site{Kind: "loader", A: j}, Site{Kind: "loader-garbage", A: j})
 	}
 	out = append(out, Site{Kind: "factory-pp"}, Site{Kind: "init", A: 2000}, Site{Kind: "aps", A: 2000})
 	names = append(names, "factory-pp")
